@@ -140,20 +140,11 @@ class Model(nn.Module):
         strides = self.backbone.dec.current_strides
         self.head_layers = nn.ModuleList([])
         for head in self.heads:
-            in_channels = int(
-                round(
-                    self.backbone.max_channels
-                    / (
-                        self.backbone_config.filters_rate
-                        ** len(self.backbone.dec.decoder_stack)
-                    )
-                )
-            )
-            # `in_channels` above is the width of the last decoder block; a head at a
-            # coarser output stride is attached to an earlier (wider) decoder block.
-            factor = (len(strides) - 1) - strides.index(head.output_stride)
-            if factor != 0:
-                in_channels = in_channels * (self.backbone_config.filters_rate**factor)
+            # A head is attached to the decoder block whose output has the head's
+            # stride; read that block's actual width instead of re-deriving it from
+            # `filters_rate` (the blocks truncate fractional widths block by block).
+            block = self.backbone.dec.decoder_stack[strides.index(head.output_stride)]
+            in_channels = int(block.refine_convs_filters)
             self.head_layers.append(head.make_head(x_in=int(in_channels)))
 
     @classmethod
